@@ -16,7 +16,7 @@ let check_line l =
   let nw = len d.d_wrappers in
   let wf = List.sort compare (List.map (fun (i, _) -> int_of_z i) d.d_wrappers) = List.init nw (fun i -> i + 1) in
   "closed=" ^ b (closedb d) ^ " links=" ^ b (linksb d) ^ " keysdistinct=" ^ b (nodupb ks) ^
-  " consecutive_from1=" ^ b consecutive ^ " wrappers_first=" ^ b wf
+  " consecutive_from1=" ^ b consecutive ^ " wrappers_first=" ^ b wf ^ " flags=" ^ b (flagsb d)
 
 (* remap: (FIRST DB) -> "<next> <db>" *)
 let remap_line l =
